@@ -39,7 +39,8 @@ def norm(s):
 
 
 def gen_set(rng):
-    texts = ["Hello there", "two  words", "R&D <dept>", "it's \"q\"", "-->", "a & b", "Ünï çødé", "1", "x"]
+    texts = ["Hello there", "two  words", "R&D <dept>", "it's \"q\"", "-->", "a & b", "Ünï çødé", "1", "x",
+             "write &lt; for less", "&amp;lt; twice", "&apos; &quot; &nbsp;", "&#60;b&#62;"]
     langs = rng.sample(["en-US", "fr-FR"], rng.choice([1, 1, 2]))
     caps = {}
     for l in langs:
